@@ -7,7 +7,11 @@ use core::cmp::Ordering;
 use core::mem;
 use core::ops::{Add, Sub, Mul, Div, Rem};
 verus! {
+// (own module: verified in its own solver context, independent of what else the unit contains)
+pub mod ratio_lemmas_m { use super::*;
 //@@ INCLUDE lib/ratio_lemmas.rs
+}
+pub use ratio_lemmas_m::*;
 //@@ INCLUDE lib/bigstub.rs
 impl Sign {
 // base/src/sign.rs: proved in unit ratio_ops / ratio_reduce, here seen through their contracts
@@ -18,12 +22,24 @@ impl Sign {
 //@@ INCLUDE lib/ratio_types.rs
 //@@ INCLUDE lib/ratio2_stubs.rs
 //@@ INCLUDE lib/ratio2_cmp_stubs.rs
+pub mod ratio2_unique_lemmas_m { use super::*;
 //@@ INCLUDE lib/ratio2_unique_lemmas.rs
+}
+pub use ratio2_unique_lemmas_m::*;
+pub mod ratio2_lemmas_m { use super::*;
 //@@ INCLUDE lib/ratio2_lemmas.rs
+}
+pub use ratio2_lemmas_m::*;
 //@@ INCLUDE lib/farey_stubs.rs
+pub mod farey_lemmas_m { use super::*;
 //@@ INCLUDE lib/farey_lemmas.rs
+}
+pub use farey_lemmas_m::*;
 //@@ INCLUDE lib/simplest_stubs.rs
+pub mod simplest_lemmas_m { use super::*;
 //@@ INCLUDE lib/simplest_lemmas.rs
+}
+pub use simplest_lemmas_m::*;
 impl Repr {
 // proved in unit ratio_reduce
 //@@ SIG rational/repr/reduce.rs
